@@ -75,6 +75,13 @@ class TaskCtx:
         """obligation under the hypotheses (facts + path condition) of an explored path"""
         return self.ob(eng, name, res.path.hyps(), goal, kind=kind, **meta)
 
+    def discharge_required(self, eng, res, suffix=""):
+        """obligations recorded on the path itself (caller-side requires, loop invariants, asserts)"""
+        for name, hyps, goal, meta in res.path.obligations:
+            meta = dict(meta)
+            kind = meta.pop("kind", "value")
+            self.ob(eng, name + suffix, hyps, goal, kind=kind, **meta)
+
     def fail(self, name, why, kind="value", **meta):
         """an obligation that is refuted without a solver call (e.g. a required raising path is absent)"""
         meta["kind"] = kind
@@ -202,10 +209,21 @@ def run_property(prop, tier="quick", seed=0, record_expected=False, only=None, j
         rep = None
         replay_fn = getattr(mod, "replay", None)
         if replay_fn is not None:
+            import signal
+
+            def _alarm(signum, frame):
+                raise TimeoutError("native replay exceeded its time budget")
+            old = signal.signal(signal.SIGALRM, _alarm)
+            signal.alarm(int(os.environ.get("PYVC_REPLAY_TIMEOUT_S", "120")))
             try:
                 rep = replay_fn(r)
+            except TimeoutError as e:
+                rep = {"reproduced": None, "detail": str(e)}
             except Exception:
                 rep = {"reproduced": None, "detail": "replay crashed: " + traceback.format_exc()[-1500:]}
+            finally:
+                signal.alarm(0)
+                signal.signal(signal.SIGALRM, old)
         os.makedirs(replay_dir, exist_ok=True)
         rpath = os.path.join(replay_dir, sanitize(r["name"]) + ".json")
         payload = {"property": prop, "obligation": r["name"], "solver": r["backend"], "solver_output": r.get("detail", ""),
